@@ -242,15 +242,21 @@ def streams(rng, tier):
     for i in lic:
         if "k" in i.lower():
             j = rng.choice([n for n, c in enumerate(i) if c in "kK"])
-            out.append(Case("kelvin", "l.canon", [i[:j] + gen_lic.KELVIN + i[j + 1:] + rng.choice(["", "+", " or MIT"])]))
+            sfx = rng.choice(["", "+", " or MIT"])
+            # the ASCII spelling directly before its look-alike: an answer remembered for the one must not be served for the other
+            out.append(Case("kelvin", "l.canon", [i + sfx]))
+            out.append(Case("kelvin", "l.canon", [i[:j] + gen_lic.KELVIN + i[j + 1:] + sfx]))
     for e in exc:
         if "k" in e.lower():
             j = rng.choice([n for n, c in enumerate(e) if c in "kK"])
-            out.append(Case("kelvin", "l.canon", [rng.choice(SHORT) + " WITH " + e[:j] + gen_lic.KELVIN + e[j + 1:]]))
+            sh = rng.choice(SHORT)
+            out.append(Case("kelvin", "l.canon", [sh + " WITH " + e]))
+            out.append(Case("kelvin", "l.canon", [sh + " WITH " + e[:j] + gen_lic.KELVIN + e[j + 1:]]))
             out.append(Case("law-kelvin", "law.l.spec", ["(" + rng.choice(SHORT) + " with " + rcase(rng, e[:j]) + gen_lic.KELVIN + e[j + 1:] + ")"], kind="law"))
     for _ in range(4000 if q else 100000):
         s = expr(rng, 0, rng.choice([1, 2, 3, 3, 4]))
         if rng.random() < 0.04 and ("k" in s or "K" in s):          # one k written as KELVIN SIGN
+            out.append(Case("grammar", "l.canon", [s]))
             j = rng.choice([n for n, c in enumerate(s) if c in "kK"]); s = s[:j] + gen_lic.KELVIN + s[j + 1:]
         k = rng.random()
         if k < 0.15: s = damage(rng, s)
